@@ -201,8 +201,8 @@ pub struct Ctx {
     pub rng_record: Vec<Outcome>,
     pub rng_prev_u: f64,
     /// the previous complete vector of uniform outcomes (for the "repeat the sample" outcome)
-    pub prev_vec: Vec<f64>,
-    pub prev_vec_next: Vec<f64>,
+    pub prev_vec: std::collections::HashMap<u64, Vec<f64>>,
+    pub prev_vec_next: std::collections::HashMap<u64, Vec<f64>>,
     /// optional absolute targets: `abs[k][i]` is tried for draw number `n` with `i = n % abs_period`
     pub abs: Vec<Vec<f64>>,
     pub abs_period: usize,
@@ -241,8 +241,8 @@ impl Ctx {
             rng: RngPlan::Stream { rng: Rng::new(0), adversarial: 0.0 },
             rng_record: Vec::new(),
             rng_prev_u: 0.5,
-            prev_vec: Vec::new(),
-            prev_vec_next: Vec::new(),
+            prev_vec: std::collections::HashMap::new(),
+            prev_vec_next: std::collections::HashMap::new(),
             abs: Vec::new(),
             abs_period: 6,
             log: LogHash::default(),
@@ -304,7 +304,7 @@ impl Ctx {
                     match g.below(kinds) {
                         0 => Outcome::Low,
                         1 => Outcome::HighMinus,
-                        2 => Outcome::U(self.prev_vec.get(i).copied().unwrap_or(0.5)),
+                        2 => Outcome::U(self.prev_vec.get(&path).and_then(|v| v.get(i)).copied().unwrap_or(0.5)),
                         _ => {
                             let which = g.below(self.abs.len());
                             match self.abs[which].get(i) {
@@ -326,16 +326,19 @@ impl Ctx {
             }
         };
         {
+            // "previous sample" is kept per logical path, like everything else about the stream
             let period = self.abs_period.max(1);
             let i = (k as usize) % period;
-            if self.prev_vec_next.len() != period {
-                self.prev_vec_next = vec![0.5; period];
+            let next = self.prev_vec_next.entry(path).or_insert_with(|| vec![0.5; period]);
+            if next.len() != period {
+                *next = vec![0.5; period];
             }
             if let Outcome::U(u) = o {
-                self.prev_vec_next[i] = u;
+                next[i] = u;
             }
             if i + 1 == period {
-                self.prev_vec = self.prev_vec_next.clone();
+                let done = next.clone();
+                self.prev_vec.insert(path, done);
             }
         }
         match o {
